@@ -226,13 +226,8 @@ def classify_known(ck, pt, model, c, st):
         if f:
             return f
     if c.kind == "illtyped":
-        # (mixed If/ElseIf arms were repaired by /repo ef38ba1.)  One class is still accepted by the tree: an If / ElseIf / Else
-        # chain in which an ANYTYPE arm sits between arms of both concrete types - If.type_of compares neighbours only and
-        # anytype matches everything.  Narrow: If chains only (not Cond), no none arm, all of u, b, a present.
-        if c.dname.startswith("chain:elseif:"):
-            ts = set(c.dname.split(":")[2])
-            if {"u", "b", "a"} <= ts and "n" not in ts:
-                return ck.match_known(lambda f: f["id"] == "if-chain-anytype-arm-bridges-concrete-types")
+        # no known class: every typing defect of the stream must be rejected by the compiler (mixed If/ElseIf arms were repaired by
+        # /repo ef38ba1, the anytype arm bridging two concrete types by d66e99a), so an accepted-and-misbehaving one is a VIOLATION
         return None
     if isinstance(c, DenseCase):
         # class decided by the faithful compile model, so that a changed optimiser is never mistaken for the pinned one
@@ -534,7 +529,7 @@ def main(argv):
                 consider(Case("small", r, [], v, app, None, None), 1)
     ck.coverage["small_shapes"] = len(smalls)
     # ---- 2. random main-routine programs (the C01 generator)
-    n_main = 5000 if thorough else 400
+    n_main = 5000 if thorough else 300
     for i in range(n_main):
         version, app, ss, fp = random_case_params(rng)
         cio = rng.random() < 0.04
@@ -547,7 +542,7 @@ def main(argv):
             hist[k] = hist.get(k, 0) + v
         consider(Case("main", r, [], version, app, ss, fp), 2 if thorough else 1)
     # ---- 3. programs with subroutines
-    n_sub = 8000 if thorough else 750
+    n_sub = 8000 if thorough else 550
     for i in range(n_sub):
         version = rng.choice([4, 5, 6, 6, 7, 8, 8, 8, 9, 10, 10])
         app = rng.random() < 0.85
